@@ -237,23 +237,26 @@ theorem needed_part_decides_values (S : Sem Val) (p p' : List PNode) (hwf : WF p
     evalG S p e (fun _ => none) vals = evalG S p' e' (fun _ => none) vals := by
   apply written_differently_same_values S p p' hwf hwf' σ hσ
     (fun k => k ∈ needed p (main.results.map (·.node))) _ main _ e e' hv hv' vals
-  · intro k hk
-    unfold embedsNeeded at hemb
-    rw [List.all_eq_true] at hemb
-    have h := hemb k hk
-    cases hn : nodeAt p k with
-    | none => rw [hn] at h; cases h
-    | some n =>
-      rw [hn] at h
-      simp only [decide_eq_true_eq] at h
-      refine ⟨n, rfl, ?_, ?_, ?_⟩
-      · rw [h, renNode_eq_mapNode]
-      · intro r hr
-        exact needed_closed p hwf _ k n hk hn _ (mem_refs_input hr)
-      · intro g hg r hr
-        exact needed_closed p hwf _ k n hk hn _ (mem_refs_sub hg hr)
+  · exact embedsNeeded_spec p p' hwf σ _ hemb
   · intro r hr
     exact needed_mono p _ _ (List.mem_map.mpr ⟨r, hr, rfl⟩)
+
+/-- The same at the level of the direct denotation (no emission involved), and with the bindings compared on
+    the needed ids only: if the needed part of `p` sits in `p'` under `σ` and the binding of `p'` gives every
+    NEEDED id `σ a` the value `a` has in `p` (a binding is read at argument ids only; the hypothesis is stated for
+    all needed ids because no "read at arguments only" lemma exists yet), every requested value is the same —
+    whatever the arguments that are not needed are bound to in either program. -/
+theorem needed_part_decides_denotation (S : Sem Val) (p p' : List PNode) (hwf : WF p) (hwf' : WF p')
+    (σ : Nat → Nat) (hσ : ∀ x y, σ x = σ y → x = y) (results : List VarRef)
+    (hemb : embedsNeeded p p' σ (results.map (·.node)) = true) (b b' : Nat → Val)
+    (hb : ∀ a ∈ needed p (results.map (·.node)), b' (σ a) = b a) :
+    results.map (fun r => denote S p' b' (mapRef σ r)) = results.map (denote S p b) := by
+  rw [← denote_congr_needed S p hwf results (fun a => b' (σ a)) b hb]
+  apply List.map_congr_left
+  intro r hr
+  exact creation_order_irrelevant S p p' hwf hwf' σ hσ (fun k => k ∈ needed p (results.map (·.node)))
+    (embedsNeeded_spec p p' hwf σ _ hemb) (fun a => b' (σ a)) b' (fun _ => rfl) r
+    (needed_mono p _ _ (List.mem_map.mpr ⟨r, hr, rfl⟩))
 
 /-- The same with every hypothesis executable: the renaming is a finite table (`sigmaOf`, injective by
     `sigmaOk`), well-formedness by `wfCheck` — the form the driver evaluates on real runs. -/
@@ -637,5 +640,15 @@ example (vals : List Int) :
       = evalG exSem deepU.nodes deepUDefault (fun _ => none) vals :=
   default_and_drop_builds_agree exSem deepU.nodes (wfCheck_sound _ (by decide)) _ _ deepU.main
     (by decide) (by decide) vals
+
+/-- `needed_part_decides_denotation` instantiated: the bindings need to agree on the eight needed ids only (not on
+    `w`, whose value `b'` may choose freely) -/
+example (b b' : Nat → Int) (hb : ∀ a ∈ [0, 1, 2, 3, 4, 5, 6, 7], b' (sigmaOf nestedIfSigma 100 a) = b a) :
+    denote exSem nestedIfOther.nodes b' ⟨9, 0⟩ = denote exSem nestedIf.nodes b ⟨7, 0⟩ := by
+  have h := needed_part_decides_denotation exSem nestedIf.nodes nestedIfOther.nodes
+    (wfCheck_sound _ (by decide)) (wfCheck_sound _ (by decide)) _
+    (sigmaOf_injective nestedIfSigma 100 (by decide)) [⟨7, 0⟩] (by decide) b b'
+    (fun a ha => hb a (by revert a; decide))
+  simpa [mapRef, sigmaOf, nestedIfSigma] using h
 
 end C01
